@@ -13,10 +13,13 @@
    The first argument [false] of run selects the statement order of Manager.stop() as it is in the code
    (`_running = False; _exit_code = code; fire(stopped)`); [true] is the order with the code recorded after the
    fire, kept only to be refuted (C08_exit_code_legacy_order_refuted).
-   Second-thread stops in [ext s0] come in two schedules: joined (the stopping thread finishes stop() before the
-   woken loop moves) and late (it is pre-empted right after fire(stopped) woke the loop and finishes only after
-   run() has returned); every position in between is equivalent to one of the two, because the loop reads
-   _exit_code / the stopping thread reads _executing_thread exactly once.
+   Second-thread stops in [ext s0] come in three schedules: PJoin (the stopping thread finishes stop() before the
+   loop moves), PLate (pre-empted right after fire(stopped) woke the loop, finishes only after run() has
+   returned; every later pre-emption is equivalent to PJoin or PLate because the loop reads _exit_code and the
+   stopping thread reads _executing_thread exactly once) and PEarly (pre-empted after `_running = False;
+   _exit_code = code`, BEFORE fire(stopped), while the loop is in the timed idle wait, until run() has returned).
+   Only C08_stopped_once needs a hypothesis about PEarly (it is refuted without); started_once, drained,
+   exit_code, idle_stop, rerun and run_spec are stated and proved for every schedule.
    [delta] is the part of the trace produced by this run(); firedK / dispK / reqs are its projections on
    queued events, dispatched events and stop requests (chronological). *)
 From Coq Require Import List ZArith Bool.
@@ -29,11 +32,30 @@ Theorem C08_started_once : forall P d fuel s0 s1 out, idle s0 -> run false P d f
 Proof. exact started_once. Qed.
 Print Assumptions C08_started_once.
 
-(* `stopped` is dispatched exactly once per run(), wherever and however often stop was requested *)
-Theorem C08_stopped_once : forall P d fuel s0 s1 out, idle s0 -> run false P d fuel s0 = Some (s1, out) ->
+(* `stopped` is dispatched exactly once per run(), wherever and however often stop was requested -- PARTIAL:
+   under the exact complement of open finding C08-early-return-race: no stopping second thread that was
+   pre-empted between its `_exit_code = code` and its fire(stopped) is still parked when run() returns
+   ([pend s1 = Some (true, _)] is set by nothing else; the trace then contains TEarly) *)
+Theorem C08_stopped_once_partial : forall P d fuel s0 s1 out, idle s0 -> run false P d fuel s0 = Some (s1, out) ->
+  is_early (pend s1) = false ->
   exists delta, trace s1 = trace s0 ++ delta /\ cnt KStopped (dispK delta) = 1.
-Proof. exact stopped_once. Qed.
-Print Assumptions C08_stopped_once.
+Proof. exact stopped_once_partial. Qed.
+Print Assumptions C08_stopped_once_partial.
+
+(* the full statement (without the hypothesis) is refuted: stop(5) by a second thread that is pre-empted before
+   its fire(stopped) while the loop sits in the timed idle wait (a generator task is pending): run() raises
+   SystemExit(5) without `stopped` having been dispatched -- it has not even been queued *)
+Theorem C08_stopped_before_return_refuted : exists P d fuel s0 s1 out delta,
+  idle s0 /\ run false P d fuel s0 = Some (s1, out) /\
+  trace s1 = trace s0 ++ delta /\ cnt KStopped (dispK delta) = 0 /\ out = Some 5%Z.
+Proof. exact stopped_before_return_refuted. Qed.
+Print Assumptions C08_stopped_before_return_refuted.
+
+(* full strength, every schedule: never more than once *)
+Theorem C08_stopped_at_most_once : forall P d fuel s0 s1 out, idle s0 -> run false P d fuel s0 = Some (s1, out) ->
+  exists delta, trace s1 = trace s0 ++ delta /\ cnt KStopped (dispK delta) <= 1.
+Proof. exact stopped_at_most_once. Qed.
+Print Assumptions C08_stopped_at_most_once.
 
 (* run() returns with an empty queue, and the sequence of events dispatched during the run IS the sequence
    of events queued during the run (started, stopped, generate_events, exception and user events alike) *)
@@ -56,18 +78,23 @@ Theorem C08_idle_stop : forall (tk : st -> st) c s, running s = false -> stop tk
 Proof. exact idle_stop. Qed.
 Print Assumptions C08_idle_stop.
 
-(* a manager that has stopped is idle again: every theorem above applies to its next run() *)
-Theorem C08_rerun : forall P d fuel s0 s1 out, idle s0 -> run false P d fuel s0 = Some (s1, out) -> idle s1.
+(* a manager that has stopped is at rest again (not running, no executing thread, nothing queued), and idle --
+   so that every theorem above applies to its next run() -- unless a pre-empted stopping thread is still parked
+   (its remainder, Model finish_late, runs outside run(): three inline ticks by the second thread) *)
+Theorem C08_rerun : forall P d fuel s0 s1 out, idle s0 -> run false P d fuel s0 = Some (s1, out) ->
+  at_rest s1 /\ (pend s1 = None -> idle s1).
 Proof. exact rerun. Qed.
 Print Assumptions C08_rerun.
 
-(* all of it at once (the lemma the others are projections of) *)
+(* all of it at once, exact (the lemma the others are projections of): the count of `stopped` is 1 except in
+   the class of the open finding, where it is 0 *)
 Theorem C08_run_spec : forall P d fuel s0 s1 out, idle s0 -> run false P d fuel s0 = Some (s1, out) ->
   exists delta, trace s1 = trace s0 ++ delta /\
     firedK delta = dispK delta /\
-    cnt KStarted (firedK delta) = 1 /\ cnt KStopped (firedK delta) = 1 /\
+    cnt KStarted (firedK delta) = 1 /\
+    cnt KStopped (firedK delta) = (if is_early (pend s1) then 0 else 1) /\
     (exists r, reqs delta = out :: r) /\
-    idle s1.
+    at_rest s1.
 Proof. exact run_spec. Qed.
 Print Assumptions C08_run_spec.
 
@@ -82,7 +109,7 @@ Print Assumptions C08_exit_code_legacy_order_refuted.
 (* ---- non-vacuity: concrete programs on which run returns *)
 (* the schedule of the refutation, with the order of the code: SystemExit(3) reaches the caller *)
 Example C08_ex_late_stop :
-  option_map snd (run false (prog_of []) 3 50 (init [] [XStop true (Some 3%Z)])) = Some (Some 3%Z).
+  option_map snd (run false (prog_of []) 3 50 (init [] [XStop PLate (Some 3%Z)])) = Some (Some 3%Z).
 Proof. exact exit_code_late_example. Qed.
 
 (* the three witnesses of the defects repaired by fixes/C08_1..3 *)
@@ -132,6 +159,6 @@ Proof. vm_compute. split; reflexivity. Qed.
 (* a stop from the second thread while the loop idles, with an exit code *)
 Example C08_ex_ext_stop :
   option_map (fun r => (dispK (trace (fst r)), reqs (trace (fst r)), snd r))
-             (run false (prog_of []) 3 50 (init [] [XFire 4; XStop false (Some 5%Z)]))
+             (run false (prog_of []) 3 50 (init [] [XFire 4; XStop PJoin (Some 5%Z)]))
   = Some ([KStarted; KGE; KUser 4; KGE; KStopped], [Some 5%Z], Some 5%Z).
 Proof. vm_compute. reflexivity. Qed.
